@@ -58,7 +58,7 @@ func safeStr(f func() string) (s string) {
 
 func checkC12(c *Ctx) {
 	r := c.Rng
-	c.Ev.Coverage.Rule = "documents with present/absent/duplicate/empty/equal-length keys and arrays of boundary numbers; per object: FindKey for every present key and absent ones, FindPath for structure-derived and perturbed key paths (including through non-objects), FindElement from the root iterator, ForEach with every subset of keys as filter (objects up to 6 members, sampled beyond; unique keys); per array: AsFloat/AsInteger/AsUint64/AsString; per number: Int/Uint/Float conversions at +-2^63, 2^64 and neighbours as int, uint and float. Each call on the real API is compared with the modelled call on the same tape AND with the abstract function on the specification's document. non-trivial = query whose abstract answer is defined; distinct = by (document, query)"
+	c.Ev.Coverage.Rule = "documents with present/absent/duplicate/empty/equal-length keys and arrays of boundary numbers; per object: FindKey for every present key and absent ones, FindPath for structure-derived and perturbed key paths (including through non-objects), FindElement from the root iterator, ForEach with every subset of keys as filter (objects up to 6 members, sampled beyond; unique keys); per object also Object.Parse (fresh and reused destination) / Elements.Lookup / Elements.MarshalJSON / Object.Map judged against plain traversal; per array: AsFloat/AsInteger/AsUint64/AsString/AsStringCvt/FirstType/Interface (also judged against plain traversal); per number: Int/Uint/Float conversions at +-2^63, 2^64 and neighbours as int, uint and float. Each call on the real API is compared with the modelled call on the same tape AND with the abstract function on the specification's document. non-trivial = query whose abstract answer is defined; distinct = by (document, query)"
 	type q struct {
 		req, impl, what string
 		doc             []byte
@@ -158,6 +158,13 @@ func checkC12(c *Ctx) {
 			impl := safeStr(func() string { return showElem(it.FindElement(nil, path...)) })
 			addQ(doc, fmt.Sprintf("find %s 0 0 elem %s", st, hexList(path)), impl, fmt.Sprintf("FindElement %q", path))
 		}
+		narr := 0
+		for _, p := range pos {
+			if p.IsValue && p.Tag == simdjson.TagArrayStart && narr < 4 {
+				narr++
+				c.c12ArrayBulk(doc, pj, p)
+			}
+		}
 		nobj := 0
 		for _, p := range pos {
 			if !p.IsValue || p.Tag != simdjson.TagObjectStart {
@@ -167,6 +174,7 @@ func checkC12(c *Ctx) {
 			if nobj > 4 {
 				break
 			}
+			c.c12ObjectBulk(doc, pj, p, dup)
 			ps := pathStr(p.Path)
 			objAt := func() *simdjson.Object {
 				it := iterAt(pj, p.K)
